@@ -64,6 +64,8 @@ func runParserProp(pp *pProp, tier string) int {
 	var samples []any
 	nviol := 0
 	stats := map[string]int{}
+	confirmedKeys := map[string]bool{}
+	confirmTries := map[string]int{}
 	var pw *parserWorld
 	nb := p.batches
 	if nb < 1 {
@@ -258,12 +260,21 @@ func runParserProp(pp *pProp, tier string) int {
 					attrs["dedupe"] = v.Class + "|" + attrs["memoize"] + "|" + attrs["recover"] + "|" + attrs["optimized"]
 				}
 				pv := &violation{Property: pp.id, Class: v.Class, Message: v.Msg, Attrs: attrs, Seed: seed, Case: reqs[i].ID, Kind: "parser"}
-				if rep.classify(pv) == "" && len(rep.fresh) < 6 {
+				if rep.classify(pv) == "" {
+					// every violation that gets a replay file is first reproduced alone in a
+					// fresh process and minimised: one per (class, dedupe key), at most ten
+					// files, at most three attempts per key
+					key := v.Class + "|" + attrs["dedupe"]
+					if confirmedKeys[key] || len(confirmedKeys) >= 10 || confirmTries[key] >= 3 {
+						continue // counted in violations_before_dedup
+					}
+					confirmTries[key]++
 					mreq, mv := confirmAndMinimise(pw, *reqs[i], v, env)
 					if mreq == nil {
 						fmt.Printf("NOTE: %s %s in %s did not reproduce in a fresh process; dropped\n", pp.id, v.Class, reqs[i].ID)
 						continue
 					}
+					confirmedKeys[key] = true
 					pv.Message = mv.Msg + fmt.Sprintf(" [grammar %s flags %v input %q opts %s]", strings.TrimSpace(specSummary(gp)["grammar"].(string)), gp.Flags, mreq.Call.Input, mustJSON(mreq.Call.Opts))
 					if len(mv.Detail) > 0 {
 						pv.Message += "\n  detail: " + string(mustJSON(mv.Detail))
